@@ -32,10 +32,11 @@ fn c01_spec() -> CheckSpec {
         ],
         real_components: vec!["a2lfile: tokenizer, loader (decoding, BOM), parser, generated parsers/writers, writer, ifdata, a2ml, ItemList", "std Read::read_to_end retry/growth loop"],
         stubbed_components: vec!["file system (in-memory VFS behind cfg(a2lfile_verif))", "OS randomness feeding std RandomState (getrandom interposer)"],
-        expected_probes: vec!["hash-order-cross-check"],
+        expected_probes: vec!["hash-order-cross-check", "api-built-tagged-items-with-equal-uid-and-line"],
         plans: vec![
             ScenarioPlan { scenario: Box::new(c01::C01Cycles { faults: false }), quick_runs: 12_000, thorough_runs: 1_000_000 },
             ScenarioPlan { scenario: Box::new(c01::C01Cycles { faults: true }), quick_runs: 6_000, thorough_runs: 400_000 },
+            ScenarioPlan { scenario: Box::new(c01::C01HashOrder), quick_runs: 3_000, thorough_runs: 100_000 },
             // only used to replay known findings that are recorded as literal input
             ScenarioPlan { scenario: Box::new(c01::C01FixedInput), quick_runs: 0, thorough_runs: 0 },
         ],
@@ -46,7 +47,7 @@ fn c03_spec() -> CheckSpec {
     CheckSpec {
         property: "C03",
         level: "fault_enumeration",
-        rule: "files that were valid when written (generated from the frozen grammar, with A2ML and IF_DATA, whole file or fragment) and were then damaged by storage faults. Scenario 1 enumerates per document every truncation point (quick: every point for documents <= 700 bytes, else 160 biased points plus every point inside the A2ML text) and every single-token drop / duplication / swap, under configurations entry {load_from_string, load, load_fragment, load_fragment_file} x strict x built-in A2ML spec {none, valid, damaged} (thorough: all configurations for every point). Scenario 2: seeded 1..3 byte-granular faults (bit flip, zero fill, garbage, lost / duplicated / swapped region, misdirected write) on UTF-8/16/32 encoded files, with read chunking and I/O faults. Oracle: the call returns Ok or Err; no panic, no arithmetic overflow (overflow checks on), fuel (4096 ticks per byte) not exhausted. evaluations = loads. Non-trivial: the fault changed the bytes. Distinct: (fault operator, lexical region class of the fault position, configuration, outcome class).",
+        rule: "files that were valid when written (generated from the frozen grammar, with A2ML and IF_DATA, whole file or fragment) and were then damaged by storage faults. Scenario 1 enumerates per document every truncation point (quick: every point for documents <= 700 bytes, else 160 biased points plus every point inside the A2ML text) and every single-token drop / duplication / swap, under configurations entry {load_from_string, load, load_fragment, load_fragment_file} x strict x built-in A2ML spec {none, valid, damaged} (thorough: all configurations for every point). Scenario 3: include trees (as in C16) with 1..2 files damaged or removed per load. Scenario 2: seeded 1..3 byte-granular faults (bit flip, zero fill, garbage, lost / duplicated / swapped region, misdirected write) on UTF-8/16/32 encoded files, with read chunking and I/O faults. Oracle: the call returns Ok or Err; no panic, no arithmetic overflow (overflow checks on), fuel (4096 ticks per byte) not exhausted. evaluations = loads. Non-trivial: the fault changed the bytes. Distinct: (fault operator, lexical region class of the fault position, configuration, outcome class).",
         assumptions: vec![
             "damaged inputs are the closure of valid generated documents under the fault operators, not all byte strings: token soups and adversarial nesting depth are outside this fault model",
             "fuel covers loops that pass a tick site (tokenizer, A2ML tokenizer/parser loops, parser token cursor); tick-free loops are not covered",
@@ -57,6 +58,7 @@ fn c03_spec() -> CheckSpec {
         plans: vec![
             ScenarioPlan { scenario: Box::new(c03::C03Enumerate), quick_runs: 320, thorough_runs: 3_000 },
             ScenarioPlan { scenario: Box::new(c03::C03RandomFaults), quick_runs: 30_000, thorough_runs: 1_500_000 },
+            ScenarioPlan { scenario: Box::new(c03::C03IncludeTrees), quick_runs: 5_000, thorough_runs: 250_000 },
         ],
     }
 }
